@@ -106,7 +106,14 @@ fn apply_edit(r: &mut Rng, kind: &str, m: &Model, extras: &BTreeMap<String, Stri
             for _ in 0..r.range(1, 3) {
                 let fi = r.below(m2.files.len() as u64) as usize;
                 let pos = r.below(m2.files[fi].items.len() as u64 + 1) as usize;
-                let d = gen_decoy(r, &mut nm);
+                // sometimes the decoy is a non-serde enum that shares its NAME with a serde type
+                // the project uses (another module's private `enum Status`)
+                let used: Vec<String> = crate::edits::reachable_types(m).into_iter().collect();
+                let d = if !used.is_empty() && r.chance(1, 3) {
+                    Item::Raw(format!("#[derive(Debug, Clone, Copy, PartialEq)]\npub enum {} {{\n    Idle,\n    Busy,\n}}\n", r.pick(&used)))
+                } else {
+                    gen_decoy(r, &mut nm)
+                };
                 m2.files[fi].items.insert(pos, d);
             }
         }
@@ -407,6 +414,24 @@ impl Check for C13 {
             if !local.is_empty() {
                 let mut xr = r.split("local-mapping");
                 cfg.mappings.insert(xr.pick(&local).clone(), xr.pick(&["string", "number"]).to_string());
+            }
+        }
+        if setup.conf != ConfSrc::Flags && (i / 8) % 5 == 3 {
+            // several mappings for instantiations of one generic, none of them the one the sources
+            // use: `Id<A>` and `Id<B>` are mapped, a field has type `Id<C>`
+            let local = model.serde_type_names();
+            if local.len() >= 3 {
+                let mut xr = r.split("generic-mapping");
+                cfg.mappings.insert(format!("Id<{}>", local[0]), "AId".into());
+                cfg.mappings.insert(format!("Id<{}>", local[1]), "BId".into());
+                cfg.mappings.insert("Id<u64>".into(), "NumId".into());
+                let target = local[2].clone();
+                let holder: Option<String> = model.structs().iter().find(|s| s.serde && crate::edits::reachable_types(&model).contains(&s.name)).map(|s| s.name.clone());
+                if let Some(h) = holder {
+                    if let Some(st) = model.struct_mut(&h) {
+                        st.fields.push(Field { name: format!("generic_id_{}", xr.range(1, 99)), ty: Ty::Gen("Id".into(), vec![Ty::Named(target)]), public: true, rename: None, skip: false, validate: None });
+                    }
+                }
             }
         }
         let (setup_cwd, setup_conf) = (setup.cwd, setup.conf);
